@@ -65,6 +65,7 @@ func c08Eval(cs c08Case) *Case {
 	nfill := 0
 	parentGet := base.Get(key)
 	var parent vuego.Template = base
+	loaded := false
 	for _, call := range cs.Calls {
 		switch call {
 		case "fill-map":
@@ -111,6 +112,12 @@ func c08Eval(cs c08Case) *Case {
 			parent = cur
 			parentGet = cur.Get(key)
 			cur = cur.Load("other.vuego")
+		case "load-page":
+			// the page is loaded in the middle of the history: the calls that follow are made on the loaded page template
+			parent = cur
+			parentGet = cur.Get(key)
+			cur = cur.Load("page.vuego")
+			loaded = true
 		}
 		if parent != cur && parent.Get(key) != parentGet {
 			fail("child-changes-parent", "after %s on the child, parent.Get(%s) changed from %q to %q", call, key, parentGet, parent.Get(key))
@@ -128,7 +135,10 @@ func c08Eval(cs c08Case) *Case {
 		want = "theme"
 	}
 	var buf bytes.Buffer
-	tpl := cur.Load("page.vuego")
+	tpl := cur
+	if !loaded {
+		tpl = cur.Load("page.vuego")
+	}
 	// data given before Load stays visible through Load; render
 	err := func() (e error) {
 		defer func() {
@@ -166,7 +176,7 @@ func c08Eval(cs c08Case) *Case {
 	if want == "" && (got["if"] != "" || got["truthy"] != "") {
 		fail("precedence:v-if", "v-if sees a value although no source defines %s (case %+v)", key, cs)
 	}
-	if g := tpl.Get(key); g != want {
+	if g := tpl.Get(key); g != want && !loaded {
 		fail("precedence:get", "Get(%s) = %q, expected %q (case %+v)", key, g, want, cs)
 	}
 	return c
@@ -180,7 +190,7 @@ func runC08(r *Run, replay *Case) {
 		return
 	}
 	r.Res.Rule = "every presence pattern of {front-matter, Fill/Assign layer, data/*.yml, theme.yml} x key addressed by JSON tag / field name x data given as map, struct, pointer-to-struct x " +
-		"every call history <= N over {fill-map, fill-struct, fill-ptr, fill-empty, assign, new, load} x four read positions ({{ }}, bound attribute, v-if, Get); non-trivial = at least one source defines the key"
+		"every call history <= N over {fill-map, fill-struct, fill-ptr, fill-empty, assign, new, load} before the page is loaded, and histories with up to 2 calls before and up to 2 calls AFTER loading the page, x four read positions ({{ }}, bound attribute, v-if, Get); non-trivial = at least one source defines the key"
 	calls := []string{"fill-map", "fill-struct", "fill-ptr", "fill-empty", "assign", "new", "load"}
 	maxLen := 3
 	if r.Thorough() {
@@ -215,6 +225,26 @@ func runC08(r *Run, replay *Case) {
 					}
 				}
 				r.Add(c08Eval(cs))
+			}
+		}
+	}
+	// histories in which the page is loaded in the middle: up to 2 calls before, up to 2 calls on the loaded page
+	post := []string{"fill-map", "fill-struct", "fill-empty", "assign"}
+	var posts [][]string
+	for _, a := range post {
+		posts = append(posts, []string{a})
+		for _, b := range post {
+			posts = append(posts, []string{a, b})
+		}
+	}
+	pres := [][]string{{}, {"fill-map"}, {"assign"}, {"fill-map", "assign"}, {"new"}, {"fill-struct", "new"}}
+	for _, key := range []string{"k", "K"} {
+		for mask := 0; mask < 8; mask++ {
+			for _, pre := range pres {
+				for _, po := range posts {
+					calls := append(append(append([]string{}, pre...), "load-page"), po...)
+					r.Add(c08Eval(c08Case{Theme: mask&1 != 0, DataYml: mask&2 != 0, FM: mask&4 != 0, Calls: calls, Key: key}))
+				}
 			}
 		}
 	}
